@@ -30,6 +30,8 @@ func runC06(c *Ctx, r *Report) {
 	c06R10(c, r, "C06.R10")
 	c06R11(c, r, "C06.R11")
 	c06Masked(c, r, "C06.R12")
+	c06IsHTTP(c, r, "C06.R14")
+	c06Memo(c, r, "C06.R15")
 	// "on a proper prefix the matcher asks for more data": the verdict tables contain the proper prefixes of the
 	// small protocols' first messages (a 12-byte signature delivered as 5..11 bytes, a banner without its end, ...)
 	c14Tables(c, r, "C06.R13")
